@@ -79,6 +79,17 @@ def check(res, r, rng, desc):
         res.case((cls, 'differs:' + which))
         if (r == other) or (other == r):
             return res.violation(f'regions differing in a {which} entry compare equal', case=desc)
+    # ---- a region of another class with the same parameter names and values is a different region
+    TWINS = {'EllipsePixelRegion': 'RectanglePixelRegion', 'RectanglePixelRegion': 'EllipsePixelRegion',
+             'EllipseSkyRegion': 'RectangleSkyRegion', 'RectangleSkyRegion': 'EllipseSkyRegion',
+             'EllipseAnnulusPixelRegion': 'RectangleAnnulusPixelRegion', 'RectangleAnnulusPixelRegion': 'EllipseAnnulusPixelRegion',
+             'EllipseAnnulusSkyRegion': 'RectangleAnnulusSkyRegion', 'RectangleAnnulusSkyRegion': 'EllipseAnnulusSkyRegion'}
+    if cls in TWINS:
+        import regions as _rg
+        twin = getattr(_rg, TWINS[cls])(**{p: getattr(r, p) for p in params_of(r)}, meta=r.meta.copy(), visual=r.visual.copy())
+        res.case((cls, 'other-class-same-fields'))
+        if (r == twin) or (twin == r) or not (r != twin):
+            return res.violation(f'a {cls} equals a {TWINS[cls]} with the same parameters', case=desc)
     # ---- angular quantities re-expressed in another unit: still equal, both ways
     changes = {}
     for p in params_of(r):
